@@ -22,7 +22,7 @@ def run(ctx):
     ks = [5, 28, 30] if q else list(range(len(P.HOLES)))
     C += PC.text_holes(ctx, own, sorted(set(ks)), vis=(4,), timeout=900 if q else 2400)
     C += PC.spell_holes(ctx, own, [0, 3] if q else range(len(P.SPELL)))
-    C += PC.label_holes(ctx, own, [P.skel('f"a')] + _pipe.pick(ctx, 1, len(P.SKELS)) if q else range(len(P.SKELS)),
+    C += PC.label_holes(ctx, own, [P.skel('f"a'), P.skel("f'''")] + _pipe.pick(ctx, 1, len(P.SKELS)) if q else range(len(P.SKELS)),
                         positions=None, vis=(4,) if q else (0, 4, 8))
     C.append(xh.Cond('vp.harness.pipe', 'pipe_bytes', timeout=300, path_timeout=60, env={'VP_VERSIONS': '0,4,8'},
                      name='pipe.pipe_bytes/0', extra_pre=['k == 0', 'at == 1'], bound='byte skeleton 0 with one symbolic ASCII byte inserted at offset 1, with / without UTF-8 BOM', symbolic='byte value, BOM flag'))
